@@ -61,6 +61,7 @@ out += ["", "%d runs of seeded changes against checks (a change seeded for C01 i
         "* `C09-genesis-domain-epoch0` (`GetDomain` takes the genesis domain for epoch 0): the aggregator driver derives its expectation through the same function; the bit-exact signing model and stream of C10 (`signing`, epochs 0/1/boundaries, fork at epoch 0) are now part of C09's check.",
         "* `C12-deposit-network-from-flag` (deposit domain taken from the `--network` default when `--testnet-*` flags are used): `create cluster` was only run on named networks; the driver now also creates a custom test network.",
         "* `C16-stale-clock-late-add` (the late-add check compares with a clock value read before the `select`): the driver's quiescence ping after every op is itself a deadliner event and refreshed the stale value; new op `qadv` moves the clock without any call into the deadliner before a registration whose deadline passed meanwhile.",
+        "* `C18-aggsigdb-blocked-waiters-share-clone` (readers blocked on one key when it is stored all receive the same object): the alias walker only queried after the store; new environment variant `+w` parks two readers before the first `Store` and walks their answers (the hostile-caller scribbling of the C17 driver sees it as well).",
         ""]
 txt = "\n".join(out)
 p = '/verif/DESIGN.md'
